@@ -1,4 +1,5 @@
 import GeosModel.Proofs.WKB.Top
+import GeosModel.Model.WKB.Cxx
 /-!
 # C09 — WKB and HEX writing followed by reading is the identity, bit for bit
 
@@ -203,5 +204,40 @@ example : read arc0 (write ⟨4, .be, .iso, true⟩ sample) = .ok (docSpec ⟨4,
   roundtrip_plain arc0 _ _ (by decide) (by decide)
 /-- the mixed-dimension polygon satisfies the hypotheses of `read_write_id` but is not plain -/
 example : Valid arc0 mixedPolygon ∧ Plain mixedPolygon.g = false := by decide
+
+/-! ## the pieces the translator regenerates (`Props/C09Gen.lean`) are the ones `write` / `read` are made of
+
+`Model/WKB/Cxx.lean` names what `writeG` / `readBody` have inlined: the WKB code of a type id (`wkbCode ∘ typeIdOf`), the
+per-type unit of the reader's size guard (`minUnit ∘ guardType`).  The bridge theorems prove the regenerated
+`getWkbType`, `writeGeometryType`, `writeSRID`, `getOutputOrdinates`, `minMemSize`, the decoding of the type word and
+the dispatch of `readGeometry` equal to `wkbCode`, `typeWord` / `header`, `outOrd`, `minUnit`, `decodeType`,
+`kindOfCode`; the theorems here say that these are what the model the round-trip theorems are about uses. -/
+
+/-- every geometry's bytes begin with the header built from `getWkbType`'s code for its type id and the ordinate set
+`getOutputOrdinates` gives for its own `hasZ()/hasM()` -/
+theorem writeG_header (c : Cfg) (e : Int) (g : G) :
+    ∃ rest, writeG c e g = header c (outOrd c.dims (gHasZ g) (gHasM g)).1 (outOrd c.dims (gHasZ g) (gHasM g)).2
+      (wkbCode (typeIdOf g)) e ++ rest := by
+  cases g <;> simp only [writeG, collHeader, typeIdOf, wkbCode, gHasZ, gHasM, anySeq, List.append_assoc] <;> exact ⟨_, rfl⟩
+
+/-- `readCoordinateSequence(n)`: `minMemSize(GEOS_LINESTRING, n)` is the model's guard -/
+theorem readCoordSeq_guard (o : Order) (z m : Bool) (n : Nat) (bs : List UInt8)
+    (h : bs.length < n * minUnit .lineString) : readCoordSeq o z m n bs = .error .tooSmall := by
+  simp only [minUnit] at h
+  simp [readCoordSeq, h]
+
+/-- every reader function that reads a count `n` rejects the input when fewer than `n × minUnit` bytes are left, with the
+unit of the type id it passes to `minMemSize` -/
+theorem readBody_guard (arc : ArcOracle) (rd : Order → List UInt8 → GRes) (h : Hdr) (bs bs' : List UInt8) (n : Nat)
+    (hk : h.kind ≠ .point) (hn : readU32 h.order bs = .ok (n, bs'))
+    (hlt : bs'.length < n * minUnit (guardType h.kind)) : readBody arc rd h bs = .error .tooSmall := by
+  cases hkd : h.kind <;> simp only [hkd, guardType, minUnit] at hlt hk <;>
+    first | exact absurd rfl hk | simp [readBody, readSizedSeq, readColl, hkd, hn, hlt]
+
+/-- non-vacuity: a multipoint announcing 2 elements with 41 bytes left is rejected, with 42 it is not rejected by the guard -/
+example : readBody arc0 (fun _ _ => .error .eof) ⟨.multiPoint, false, false, 0, .le⟩ ([2, 0, 0, 0] ++ List.replicate 41 0)
+    = .error .tooSmall := readBody_guard _ _ _ _ (List.replicate 41 0) 2 (by decide) rfl (by decide)
+example : readBody arc0 (fun _ _ => .error .eof) ⟨.multiPoint, false, false, 0, .le⟩ ([2, 0, 0, 0] ++ List.replicate 42 0)
+    = .error .eof := by rfl
 
 end GeosModel.C09
